@@ -15,7 +15,7 @@ use ec_core::{
     operator::{
         mutator::{DynMutator, Mutator},
         recombinator::{DynRecombinator, Recombinator},
-        selector::{best::Best, dyn_weighted::DynWeightedError, lexicase::Lexicase, random::Random, tournament::Tournament, DynSelector, Selector},
+        selector::{best::Best, dyn_weighted::{DynWeighted, DynWeightedError}, lexicase::Lexicase, random::Random, tournament::Tournament, DynSelector, Selector},
         Composable, DynOperator, Operator,
     },
     test_results::{Error, TestResults},
@@ -373,6 +373,14 @@ fn show_diag<T: std::fmt::Debug, E: std::fmt::Display + miette::Diagnostic>(r: R
         Err(e) => format!("Err({e}; help={:?}; code={:?})", e.help().map(|h| h.to_string()), e.code().map(|c| c.to_string())),
     }
 }
+/// ... and with what `Debug` says (the VARIANT of the error, not only its wording): only for rows where the
+/// concrete form and the erased form carry the same error type
+fn show_dbg<T: std::fmt::Debug, E: std::fmt::Display + std::fmt::Debug>(r: Result<T, E>) -> String {
+    match r {
+        Ok(v) => format!("Ok({v:?})"),
+        Err(e) => format!("Err({e}; debug={e:?})"),
+    }
+}
 type DRx<'a> = dyn DynRecombinator<[Vec<bool>; 2], CrossoverGeneError<DifferentGenomeLength>, Output = Vec<bool>> + 'a;
 type DSw<'a> = dyn DynSelector<Pop, DynWeightedError> + 'a;
 
@@ -483,6 +491,19 @@ fn trace(args: &[String]) -> i32 {
         }
         sel_repo_error!("best/dyn_weighted_error", Best);
         sel_repo_error!("random/dyn_weighted_error", Random);
+        // the repository's weighted selector list itself behind every pointer, on empty populations too (it has
+        // paths of its own for them), with the error's variant compared
+        macro_rules! sel_dyn_weighted {
+            ($imp:expr, $c:expr) => {
+                emit(&mut out, "selector", $imp, all_forms!(s, $c, [DSw<'_>, DS<'_>, DSsy<'_>], |w, rng| {
+                    let pop = if a % 2 == 0 { Pop::new() } else { population(a) };
+                    show_dbg(Selector::select(&w, &pop, rng).map(|i| pop.iter().position(|p| std::ptr::eq(p, i))))
+                }))
+            };
+        }
+        sel_dyn_weighted!("dyn_weighted", DynWeighted::<Pop>::new(Best, 1).with_selector(Random, 2).with_selector(Lexicase::new(3), 1));
+        sel_dyn_weighted!("dyn_weighted/zero", DynWeighted::<Pop>::new(Best, 0).with_selector(Random, 0));
+        sel_dyn_weighted!("dyn_weighted/after_zero", DynWeighted::<Pop>::new(Best, 0).with_selector(Random, 3));
         macro_rules! operator {
             ($imp:expr, $c:expr) => {
                 emit(&mut out, "operator", $imp, all_forms!(s, $c, [DO<'_>, DOs<'_>, DOy<'_>, DOsy<'_>], |w, rng| {
